@@ -640,7 +640,7 @@ impl TransactionalMemory {
         if needs_recovery && read_only {
             return Err(DatabaseError::RepairAborted);
         }
-        let (header, _) = unrepaired.finalize(file_len)?;
+        let (header, _) = unrepaired.finalize(file_len, false)?;
         if needs_recovery {
             storage
                 .write(0, DB_HEADER_SIZE, true)?
@@ -747,13 +747,18 @@ impl TransactionalMemory {
         // after an external truncation, writing them could even fail beyond the end of the file.
         // Both caches are cleared before the fallible sync, so an early error return cannot
         // leave cached pages that disagree with the file.
+        // A transaction that was rolled back may have grown the file; the stored layout then lags
+        // behind a length that redb itself set. Only a length that differs from the live layout was
+        // changed behind its back
+        let own_file_len = self.file_len_matches_layout()?;
         self.storage.discard_write_buffer();
         self.storage.invalidate_cache_all();
         self.storage.sync_file()?;
 
         let header_bytes = self.storage.read_direct(0, DB_HEADER_SIZE)?;
         let unrepaired = UnrepairedDatabaseHeader::from_bytes(&header_bytes, self.page_size)?;
-        let (header, was_clean) = unrepaired.finalize(self.storage.raw_file_len()?)?;
+        let (header, was_clean) =
+            unrepaired.finalize(self.storage.raw_file_len()?, own_file_len)?;
         if !was_clean {
             self.storage
                 .write(0, DB_HEADER_SIZE, true)?
